@@ -107,7 +107,7 @@ def run_variant(pid: str, v: dict) -> dict:
             hit = [f for f in new if f.rule.startswith(want) and (not v.get("func") or v["func"] in f.func or v["func"] in f.construct)]
             res["status"] = "ok" if hit else "MISSED"
     except AnalysisError as e:
-        res["status"] = "ANALYSIS-ERROR" if v.get("fires") is not None or True else "ok"
+        res["status"] = "ok" if v.get("exit2_ok") and not res["got"] else "ANALYSIS-ERROR"
         res["got"] = [f"exit2: {e}"]
     except Exception:
         res["status"] = "CRASH"
@@ -141,6 +141,10 @@ def variants_for(pid: str) -> List[dict]:
     # (selftest/benign): silent as well
     for d in sorted((VERIF / "selftest" / "benign").glob("*/patch.diff")):
         out.append({"name": f"benign:{d.parent.name}", "diff": f"selftest/benign/{d.parent.name}/patch.diff", "fires": None})
+    # behaviour-preserving restructurings whose correctness needs an argument the rules do not make (e.g. recursion turned
+    # into an explicit work list): the accepted answers are silence or analysis-error (exit 2), never a VIOLATION
+    for d in sorted((VERIF / "selftest" / "undecided").glob("*/patch.diff")):
+        out.append({"name": f"undecided:{d.parent.name}", "diff": f"selftest/undecided/{d.parent.name}/patch.diff", "fires": None, "exit2_ok": True})
     return out
 
 
